@@ -1063,7 +1063,7 @@ func (fe *FactEngine) exportable(a *Alt, g *ssa.Function) *Alt {
 			case OpLocal, OpPhi, OpOpaque, OpClosure, OpRecv:
 				ok = false
 			case OpParam:
-				if x.Fn != g {
+				if x.Fn != g && !within(g, x.Fn) {
 					ok = false
 				}
 			}
